@@ -2,7 +2,7 @@
    This file contains only the property theorems; each is closed by an exact lemma. *)
 From Coq Require Import ZArith List Bool Lia.
 From PB Require Import lib.SumZ lib.PySlice lib.Arr C11.DtD C11.Table gen.GenBands C11.Banded C11.History
-                       C11.Uses C11.UsesProofs.
+                       C11.Uses C11.UsesProofs C11.PSplineSys C11.PSplineSysProofs.
 Import ListNotations.
 Open Scope Z_scope.
 
@@ -174,6 +174,66 @@ Example C11_history_with_uses_nonvacuous :
                                                 Clobber [[1;2;3;4;5;6;7;8;9];[1;2;3;4;5;6;7;8;9];[1;2;3;4;5;6;7;8;9];[1;2;3;4;5;6;7;8;9]];
                                                 UReset c1; AddDiag [5]; SetPen [[0]]])) c2,
             ureset true 9 None c2 with
+      | Some u1, Some u2 => uobserve u1 = uobserve u2
+      | _, _ => False
+      end
+  | None => False
+  end.
+Proof. vm_compute. reflexivity. Qed.
+
+(* ---- PSpline (C11/PSplineSys.v): constructor and reset_penalty_diagonals as operations of the same
+   state machine; allow_pentapy=False and padding = spline_degree - diff_order recomputed from the
+   CURRENT order on every call ---- *)
+
+(* A PSpline built with any settings, after ANY history of reset_penalty_diagonals (changing order,
+   lam, layout), solve_pspline, inherited reconfigurations and uses, then reset to settings p, is the
+   PSpline constructed directly with p. *)
+Theorem C11_pspline_history : forall (hp : bool) (nb : nat) (deg : Z) (p0 : pcfg) (ops : list pop) (p : pcfg) (u0 : usys),
+  Forall (pop_ok nb) ops -> (1 <= p_d p < nb)%nat ->
+  pinit hp nb deg p0 = Some u0 ->
+  match ureset hp nb (Some (prun hp nb deg u0 ops)) (pcfg_cfg deg p), pinit hp nb deg p with
+  | Some u1, Some u2 => usys_eq u1 u2 /\ UInv nb u1
+  | None, None => True
+  | _, _ => False
+  end.
+Proof. exact pspline_history. Qed.
+Print Assumptions C11_pspline_history.
+
+(* Geometry of a constructed PSpline: never pentapy, lower iff allow_lower, max(diff_order,
+   spline_degree) bands: penalty shape (B+1, nb) / (2B+1, nb), num_bands = B, main index 0 / B. *)
+Theorem C11_pspline_shape : forall (hp : bool) (nb : nat) (deg : Z) (p : pcfg) (u : usys),
+  pinit hp nb deg p = Some u ->
+  let s := u_sys u in
+  let B := pspline_bands deg (p_d p) in
+  s_d s = p_d p /\ s_penta s = false /\ s_lower s = p_allow_lower p /\
+  nr (s_pen s) = (if p_allow_lower p then B + 1 else 2 * B + 1) /\ nc (s_pen s) = Z.of_nat nb /\
+  s_num_bands s = B /\ s_main s = (if p_allow_lower p then 0 else B).
+Proof. exact pspline_shape. Qed.
+Print Assumptions C11_pspline_shape.
+
+(* ... and the same geometry after any history followed by reset_penalty_diagonals(p): the padding
+   follows the current difference order, whatever orders were used before. *)
+Theorem C11_pspline_shape_after_history : forall (hp : bool) (nb : nat) (deg : Z) (p0 : pcfg) (ops : list pop) (p : pcfg) (u0 : usys),
+  Forall (pop_ok nb) ops -> (1 <= p_d p < nb)%nat -> 0 < p_lam p ->
+  pinit hp nb deg p0 = Some u0 ->
+  exists u1, ureset hp nb (Some (prun hp nb deg u0 ops)) (pcfg_cfg deg p) = Some u1 /\
+    let s := u_sys u1 in
+    let B := pspline_bands deg (p_d p) in
+    s_d s = p_d p /\ s_penta s = false /\ s_lower s = p_allow_lower p /\
+    nr (s_pen s) = (if p_allow_lower p then B + 1 else 2 * B + 1) /\ nc (s_pen s) = Z.of_nat nb /\
+    s_num_bands s = B /\ s_main s = (if p_allow_lower p then 0 else B).
+Proof. exact pspline_shape_after_history. Qed.
+Print Assumptions C11_pspline_shape_after_history.
+
+Example C11_pspline_history_nonvacuous :
+  let p0 := {| p_lam := 5; p_d := 3%nat; p_allow_lower := false; p_rev := Some true |} in
+  let p1 := {| p_lam := 1; p_d := 1%nat; p_allow_lower := true; p_rev := Some false |} in
+  let p2 := {| p_lam := 1; p_d := 4%nat; p_allow_lower := true; p_rev := None |} in
+  match pinit true 7 2 p0 with
+  | Some u0 =>
+      match ureset true 7 (Some (prun true 7 2 u0 [PReset p1; POp (AddDiag [1;2;3;4;5;6;7]); PSolve; PReset p2;
+                                                  POp (AddDiag [3]); PReset p2; POp (Clobber [[0]]); PReset p0])) (pcfg_cfg 2 p1),
+            pinit true 7 2 p1 with
       | Some u1, Some u2 => uobserve u1 = uobserve u2
       | _, _ => False
       end
